@@ -18,6 +18,7 @@ class Bar:
         self.time_signature_numerator = numerator
         self.time_signature_denominator = denominator
         self.key_signature = key
+        self.default_channel = default_channel
 
         # Adjust sequence
         self.sequence.normalise()
@@ -56,7 +57,8 @@ class Bar:
 
     def copy(self) -> Bar:
         cpy = self.__class__(self.sequence.copy(),
-                             self.time_signature_numerator, self.time_signature_denominator, self.key_signature)
+                             self.time_signature_numerator, self.time_signature_denominator, self.key_signature,
+                             self.default_channel)
         return cpy
 
     def is_empty(self) -> bool:
